@@ -177,6 +177,17 @@ func checkC20(r *Run) {
 					arg := c.Resolve(cc.Args[0])
 					k, ok := arg.(*ssa.Call)
 					if !ok || c.StaticCalleeOf(&k.Call) != clone || clone == nil {
+						// a copy made in place: a Message allocated for this hand-over and filled field by field from the
+						// dispatcher's message, by the criteria clone() itself is held to (R-C20-1)
+						if al, isAlloc := arg.(*ssa.Alloc); isAlloc && al.Parent() == f && ho.At != nil {
+							if okIP, why := c.inPlaceDeepCopy(f, al, msg, st, ho.At, hos); okIP {
+								r2.OK(key, ho.At.Pos(), "argument is a Message allocated for this hand-over and filled as a deep copy of %s before it", msg.Name())
+								return
+							} else if why != "" {
+								r2.Bad(key, in.Pos(), "handler receives a Message filled in place that is not a private deep copy of the dispatcher's message: %s", why)
+								return
+							}
+						}
 						r2.Bad(key, in.Pos(), "handler receives %s, which is not the result of a clone() call", cc.Args[0].Name())
 						return
 					}
@@ -348,6 +359,105 @@ func (c *Ctx) checkCloneDeep(r1 *RuleRep, clone *ssa.Function, st *types.Struct)
 	if len(rets) == 0 {
 		r1.Lost("clone/return", "no return")
 	}
+}
+
+// inPlaceDeepCopy: `al` is a Message of the dispatcher's own that is handed over at `at`; it is a private deep copy of
+// msg if nothing but the hand-over and its own field stores refers to it, every field is stored (before the hand-over on
+// every path, never after it) with what clone() would store, and it is allocated anew for every hand-over.
+// ("", false): not this shape at all.
+func (c *Ctx) inPlaceDeepCopy(f *ssa.Function, al *ssa.Alloc, msg ssa.Value, st *types.Struct, at ssa.Instruction, hos []serveHandover) (bool, string) {
+	pt, ok := al.Type().Underlying().(*types.Pointer)
+	if !ok || st == nil || !types.Identical(pt.Elem().Underlying(), st) {
+		return false, ""
+	}
+	stores := map[int][]*ssa.Store{}
+	for _, u := range *al.Referrers() {
+		switch x := u.(type) {
+		case *ssa.DebugRef:
+		case *ssa.FieldAddr:
+			for _, uu := range *x.Referrers() {
+				switch y := uu.(type) {
+				case *ssa.DebugRef:
+				case *ssa.UnOp:
+				case *ssa.Store:
+					if y.Addr != ssa.Value(x) {
+						return false, "the address of field " + st.Field(x.Field).Name() + " is stored elsewhere"
+					}
+					stores[x.Field] = append(stores[x.Field], y)
+				default:
+					return false, "field " + st.Field(x.Field).Name() + " of the copy is used by something other than its own assignment"
+				}
+			}
+		default:
+			if u == at {
+				continue
+			}
+			if ld, isLoad := u.(*ssa.UnOp); isLoad && ld.Op == token.MUL {
+				// a load nobody uses (`_ = x`, left behind by the normaliser)
+				used := false
+				for _, r := range *ld.Referrers() {
+					if _, dbg := r.(*ssa.DebugRef); !dbg {
+						used = true
+					}
+				}
+				if !used {
+					continue
+				}
+			}
+			isHO := false
+			for _, h := range hos {
+				if u == h.In || (h.At != nil && u == h.At) {
+					isHO = true
+				}
+			}
+			if !isHO {
+				return false, "the copy is also referred to outside the hand-over (" + u.String() + ")"
+			}
+		}
+	}
+	for i := 0; i < st.NumFields(); i++ {
+		fld := st.Field(i)
+		if len(stores[i]) == 0 {
+			return false, "field " + fld.Name() + " is not copied"
+		}
+		dom := false
+		for _, s := range stores[i] {
+			s := s
+			if isRefType(fld.Type()) {
+				if _, isSlice := fld.Type().Underlying().(*types.Slice); !isSlice {
+					return false, "reference-typed field " + fld.Name() + " with no known deep-copy idiom"
+				}
+				if ok, w := c.freshSliceCopyOfField(s.Val, msg, fld); !ok {
+					return false, "field " + fld.Name() + ": " + w
+				}
+			} else if !c.loadOfFieldOf(stripConv(c.Resolve(s.Val)), msg, fld) {
+				return false, "field " + fld.Name() + " is not set from the message's " + fld.Name()
+			}
+			if Dominated(f, at, func(x ssa.Instruction) bool { return x == ssa.Instruction(s) }, PathQ{}) {
+				dom = true
+			}
+			if _, later := CanReach(f, at, func(x ssa.Instruction) bool { return x == ssa.Instruction(s) }, PathQ{BlockInstr: func(x ssa.Instruction) bool { return x == ssa.Instruction(al) }}); later {
+				return false, "field " + fld.Name() + " is written again after the hand-over"
+			}
+		}
+		if !dom {
+			return false, "field " + fld.Name() + " is not set on every path to the hand-over"
+		}
+	}
+	// allocated anew for every hand-over
+	avoid := PathQ{BlockInstr: func(x ssa.Instruction) bool { return x == ssa.Instruction(al) }}
+	if _, ok := CanReach(f, nil, func(x ssa.Instruction) bool { return x == at }, avoid); ok {
+		return false, "a path reaches the hand-over without allocating the copy"
+	}
+	for _, other := range hos {
+		if other.At == nil {
+			continue
+		}
+		if _, ok := CanReach(f, other.At, func(x ssa.Instruction) bool { return x == at }, avoid); ok {
+			return false, "the same Message can be handed over twice"
+		}
+	}
+	return true, ""
 }
 
 // checkNoBackChannel: the message parameter and clone results are used only to read fields, as clone receiver,
